@@ -26,6 +26,13 @@ var initAllow = map[string]bool{
 	"maps": true, "container/heap": true, "math/rand": false, "unicode/utf16": true,
 }
 
+// packages whose functions return zero values while package initialisers run
+var blackboxInit = map[string]bool{
+	"text/template": true, "html/template": true, "database/sql": true, "net/http": true, "expvar": true,
+	"flag": true, "log": true, "os": true, "time": true, "mime": true, "github.com/google/safehtml/template": true,
+	"regexp/syntax": true, "reflect": true, "encoding/json": true, "google.golang.org/appengine": true,
+}
+
 func (i *interpreter) intrinsicFor(fn *ssa.Function) intrinsicFn {
 	if js := i.ex.job.Stubs; len(js) > 0 {
 		// per-job stubs are resolved on every call (not cached across jobs)
@@ -59,6 +66,13 @@ func (i *interpreter) intrinsicFor(fn *ssa.Function) intrinsicFn {
 		if !i.ex.run.initPackage(path) {
 			res = func(fr *frame, args []value) value { return nil }
 		}
+	}
+	if res == nil && i.ex.job != nil && i.ex.job.Harness == "<init>" && fn.Pkg != nil &&
+		!i.ex.run.initPackage(fn.Pkg.Pkg.Path()) && blackboxInit[fn.Pkg.Pkg.Path()] {
+		// During package initialisation, calls into packages outside the model
+		// (templates, SQL, HTTP...) return zero values.
+		f := fn
+		return func(fr *frame, args []value) value { return fr.i.zeroResults(f) }
 	}
 	if res == nil && fn.Blocks == nil && fn.Pkg != nil {
 		switch fn.Pkg.Pkg.Path() {
